@@ -444,8 +444,10 @@ theorem putTail_lexEnabled (m : Mem) (a : PutArgs) (sup reuse : Option Nat) (t :
   unfold Mem.putTail
   split
   · rfl
-  · show (((m.appendPut a sup reuse).afterAppend t).addCards a.nc (m.seq + 1)).lexEnabled = _
-    rw [addCards_lexEnabled, afterAppend_lexEnabled]; rfl
+  · split
+    · rfl
+    · show (((m.appendPut a sup reuse).afterAppend t).addCards a.nc (m.seq + 1)).lexEnabled = _
+      rw [addCards_lexEnabled, afterAppend_lexEnabled]; rfl
 
 theorem enableVec_lexEnabled (m : Mem) : m.enableVec.lexEnabled = m.lexEnabled := by
   unfold Mem.enableVec; split <;> rfl
@@ -520,7 +522,9 @@ theorem commitSkip_lexEnabled (m : Mem) : m.commitSkipIndexes.1.lexEnabled = m.l
   · split
     · rfl
     · rename_i m1 δ h1
-      exact applyRecords_lexEnabled m m.pending false m1 δ h1
+      show (m1.foldEmbs δ.embs).lexEnabled = _
+      rw [← applyRecords_lexEnabled m m.pending false m1 δ h1]
+      unfold Mem.foldEmbs; split <;> rfl
 
 theorem compactFramesV_lexEnabled (v : VacVariant) (m : Mem) : (m.compactFramesV v).lexEnabled = m.lexEnabled := by
   unfold Mem.compactFramesV; split <;> rfl
@@ -551,7 +555,7 @@ theorem stepV_lexEnabled (v : VacVariant) (m : Mem) (op : Op) (h : m.lexEnabled 
   | doctor vac rt rl rv a b c d =>
     show (m.doctorV v vac rt rl rv a b c d).1.lexEnabled = true
     unfold Mem.doctorV
-    split <;> exact openFrom_lexEnabled _ d
+    exact openFrom_lexEnabled _ d
   | ticket s c b f =>
     show (m.applyTicket s c b f).1.lexEnabled = true
     unfold Mem.applyTicket
@@ -669,31 +673,26 @@ theorem doctorV_sim (v : VacVariant) (m : Mem) (vac rt rl rv : Bool) (a b c d : 
     Quiet (m.doctorV v vac rt rl rv a b c d).1 ∧ abs (m.doctorV v vac rt rl rv a b c d).1 = abs m := by
   have hd := dropHandle_inv m a hi
   unfold Mem.doctorV
-  split
-  · obtain ⟨hq0, hf0⟩ := openFrom_spec (m.dropHandle a) b hd.ok
-    have ha0 : abs ((m.dropHandle a).openFrom b) = abs m := by
-      rw [openFrom_abs _ b hd, dropHandle_abs m a hi]
-    have h1 : Quiet (m.doctorStage1V v vac a b c) ∧ abs (m.doctorStage1V v vac a b c) = abs m := by
-      unfold Mem.doctorStage1V
-      split
-      · exact ⟨(vacuumV_sim v _ b c hq0.inv).1, (vacuumV_abs v _ b c hq0.inv).trans ha0⟩
-      · exact ⟨hq0, ha0⟩
-    have h2 : Quiet ((m.doctorStage1V v vac a b c).doctorStage2 (rt || rl || rv) rv c) ∧
-        abs ((m.doctorStage1V v vac a b c).doctorStage2 (rt || rl || rv) rv c) = abs m := by
-      unfold Mem.doctorStage2
-      split
-      · obtain ⟨q, e⟩ := doctorRebuild_quiet _ rv c h1.1
-        exact ⟨q, e.trans h1.2⟩
-      · exact h1
-    have hd2 := dropHandle_inv _ c h2.1.inv
-    obtain ⟨hq3, hf3⟩ := openFrom_spec _ d hd2.ok
-    refine ⟨hq3, ?_⟩
-    show abs ((((m.doctorStage1V v vac a b c).doctorStage2 (rt || rl || rv) rv c).dropHandle c).openFrom d) = _
-    rw [openFrom_abs _ d hd2, dropHandle_abs _ c h2.1.inv, h2.2]
-  · obtain ⟨hq, hf⟩ := openFrom_spec (m.dropHandle a) d hd.ok
-    refine ⟨hq, ?_⟩
-    show abs ((m.dropHandle a).openFrom d) = _
-    rw [openFrom_abs _ d hd, dropHandle_abs m a hi]
+  obtain ⟨hq0, hf0⟩ := openFrom_spec (m.dropHandle a) b hd.ok
+  have ha0 : abs ((m.dropHandle a).openFrom b) = abs m := by
+    rw [openFrom_abs _ b hd, dropHandle_abs m a hi]
+  have h1 : Quiet (m.doctorStage1V v vac a b c) ∧ abs (m.doctorStage1V v vac a b c) = abs m := by
+    unfold Mem.doctorStage1V
+    split
+    · exact ⟨(vacuumV_sim v _ b c hq0.inv).1, (vacuumV_abs v _ b c hq0.inv).trans ha0⟩
+    · exact ⟨hq0, ha0⟩
+  have h2 : Quiet ((m.doctorStage1V v vac a b c).doctorStage2 (rt || rl || rv) rv c) ∧
+      abs ((m.doctorStage1V v vac a b c).doctorStage2 (rt || rl || rv) rv c) = abs m := by
+    unfold Mem.doctorStage2
+    split
+    · obtain ⟨q, e⟩ := doctorRebuild_quiet _ rv c h1.1
+      exact ⟨q, e.trans h1.2⟩
+    · exact h1
+  have hd2 := dropHandle_inv _ c h2.1.inv
+  obtain ⟨hq3, hf3⟩ := openFrom_spec _ d hd2.ok
+  refine ⟨hq3, ?_⟩
+  show abs ((((m.doctorStage1V v vac a b c).doctorStage2 (rt || rl || rv) rv c).dropHandle c).openFrom d) = _
+  rw [openFrom_abs _ d hd2, dropHandle_abs _ c h2.1.inv, h2.2]
 
 /-- ONE STEP with the variant's vacuum: the invariant is preserved and the abstract state moves exactly as
     the reference says — `vacuum` and `doctor` change nothing -/
